@@ -185,7 +185,20 @@ class Ctx:
                 self.log("HARNESS-ERROR:", e)
         if self.violations:
             return 1
-        if self.harness_errors and not self.verdicts["discharged"]:
+        if self.harness_errors:
+            return 2          # part of the check crashed: what it reports is not a verdict on the property
+        # coverage floor: a change that silently turns decided obligations into "unencoded" (the lifted run no longer gets through the
+        # code) must not look like a pass.  refs/coverage_floor.json holds, per property and tier, 85 % of the number of obligations
+        # that were encoded (discharged + inconclusive) on the tree the checks were developed on (tools/mkfloor.py).
+        try:
+            floors = json.load(open(os.path.join(ROOT, "refs", "coverage_floor.json")))
+            floor = floors.get(self.pid, {}).get(self.tier)
+        except (OSError, ValueError):
+            floor = None
+        encoded = self.verdicts["discharged"] + self.verdicts["inconclusive"]
+        if floor is not None and encoded < floor:
+            self.log(f"COVERAGE-DROP property={self.pid} encoded={encoded} floor={floor}: the check no longer reaches the code it is meant to decide "
+                     f"(unencoded reasons: {dict(self.unencoded_reasons.most_common(3))})")
             return 2
         return 0
 
